@@ -156,6 +156,7 @@ def run_json(spec, acc):
     dec_plain = NMEA2000Decoder()
     dec_ident = NMEA2000Decoder(build_network_map=True)
     dec_ident.decode_basic_string(wire.plain_line(6, 60928, 9, 255, hist.claim_name(1234, 1851).to_bytes(8, "little")), already_combined=True)
+    dec_units = NMEA2000Decoder(preferred_units={PhysicalQuantities.TEMPERATURE: "f", PhysicalQuantities.PRESSURE: "psi", PhysicalQuantities.ANGLE: "deg", PhysicalQuantities.SPEED: "kts"})
     enc = NMEA2000Encoder()
     for d in defs:
         if d.fixed_layout:
@@ -163,7 +164,7 @@ def run_json(spec, acc):
         else:
             cases = list(variable_cases(dbx, d, rng, 12 if quick else 2000))
         for k, (label, payload, nb, _) in enumerate(cases):
-            dec = dec_ident if k % 3 == 0 else dec_plain
+            dec = dec_ident if k % 3 == 0 else (dec_units if k % 5 == 4 else dec_plain)
             route = ROUTES[(k + d.index) % len(ROUTES)]
             try:
                 m = decode_via(dec, route, rng.randrange(8), d, payload.to_bytes(nb, "little"), k)
